@@ -49,7 +49,7 @@ fn caught<R: std::fmt::Debug>(f: impl FnOnce() -> R) -> String {
     match std::panic::catch_unwind(std::panic::AssertUnwindSafe(f)) {
         Ok(r) => format!("{:?}", r),
         Err(p) => {
-            if p.downcast_ref::<symx::engine::Inconclusive>().is_some() {
+            if p.downcast_ref::<symx::engine::Inconclusive>().is_some() || p.downcast_ref::<symx::engine::PathAborted>().is_some() {
                 std::panic::resume_unwind(p);
             }
             format!("PANIC: {}", payload_msg(&p))
@@ -87,6 +87,10 @@ macro_rules! alg_reach {
             v
         });
         put!($res, $host, "has_path_connecting", (0..ids.len()).map(|t| has_path_connecting(g, ids[0], ids[t], None)).collect::<Vec<bool>>());
+        put!($res, $host, "has_path_connecting(DfsSpace::default())", {
+            let mut space = DfsSpace::default();
+            (0..ids.len()).map(|t| has_path_connecting(g, ids[ids.len() - 1], ids[t], Some(&mut space))).collect::<Vec<bool>>()
+        });
         put!($res, $host, "dominators", {
             let d = simple_fast(g, ids[0]);
             (0..ids.len()).map(|v| d.immediate_dominator(ids[v]).map(back)).collect::<Vec<_>>()
@@ -228,6 +232,7 @@ macro_rules! alg_directed_in {
         let kept: &Vec<(usize, usize)> = $kept;
         let back = |x| ids.iter().position(|&y| y == x).unwrap_or(usize::MAX);
         put!($res, $host, "kosaraju_scc", norm_sets(kosaraju_scc(g), ids));
+        put!($res, $host, "toposort(DfsSpace::default()) is ok", toposort(g, Some(&mut DfsSpace::default())).is_ok());
         put!($res, $host, "toposort(ok, valid)", {
             match toposort(g, None) {
                 Err(_) => (false, true),
@@ -283,6 +288,7 @@ macro_rules! alg_tred {
 fn matrix_directed(kept: &Vec<(usize, usize)>, n: usize) -> Res {
     let mut g: MatrixGraph<(), f64, std::collections::hash_map::RandomState, Directed, Option<f64>, u16> = MatrixGraph::default();
     let x0 = g.add_node(());
+    let x1 = g.add_node(());
     let mut ids = vec![];
     let mut mid = None;
     for k in 0..n {
@@ -295,6 +301,7 @@ fn matrix_directed(kept: &Vec<(usize, usize)>, n: usize) -> Res {
         g.add_edge(ids[a], ids[b], (k + 1) as f64);
     }
     g.remove_node(x0);
+    g.remove_node(x1);
     if let Some(m) = mid {
         g.remove_node(m);
     }
@@ -396,6 +403,7 @@ impl PartC {
         {
             let mut g: MatrixGraph<(), f64, std::collections::hash_map::RandomState, Ty, Option<f64>, u16> = MatrixGraph::default();
             let x0 = g.add_node(());
+            let x1 = g.add_node(());
             let mut ids = vec![];
             let mut mid = None;
             for k in 0..n {
@@ -408,6 +416,7 @@ impl PartC {
                 g.add_edge(ids[a], ids[b], w(k));
             }
             g.remove_node(x0);
+            g.remove_node(x1); // two adjacent removed ids
             if let Some(m) = mid {
                 g.remove_node(m);
             }
